@@ -50,6 +50,12 @@
 #ifndef VERIF_INV_BLOCK_ALLOC_STATS_RANGE
 #define VERIF_INV_BLOCK_ALLOC_STATS_RANGE
 #endif
+#ifndef VERIF_INV_FILE_READ
+#define VERIF_INV_FILE_READ
+#endif
+#ifndef VERIF_INV_FILE_WRITE
+#define VERIF_INV_FILE_WRITE
+#endif
 #ifndef VERIF_INV_PASS2_CHECK_NAME
 #define VERIF_INV_PASS2_CHECK_NAME
 #endif
